@@ -1,7 +1,7 @@
 (* C01 — Queries never miss a stored matching row (no false negatives).
    Statements only; proofs are in Proofs/ExprProofs.v, Proofs/QueryFnProofs.v, Proofs/MinMaxProofs.v. *)
 From BS Require Import Lib.Bytes Model.Json Model.Expr Model.MinMax Model.QueryFn
-  Proofs.ExprProofs Proofs.MinMaxProofs Proofs.QueryFnProofs.
+  Model.Index Proofs.ExprProofs Proofs.MinMaxProofs Proofs.QueryFnProofs Proofs.IndexProofs.
 From Coq Require Import List.
 Import ListNotations.
 
@@ -25,6 +25,16 @@ Theorem C01_multiset : forall tok re q files f b r,
   exists l1 l2, run_query tok re q files = l1 ++ filter (row_matches tok re q) (bk_rows b) ++ l2.
 Proof. exact no_false_negatives_multiset. Qed.
 Print Assumptions C01_multiset.
+
+(* composition with C18: rows of any flush are found by any query they match, for every hash
+   function, tokenizer and key set (the well-formedness premise is discharged by C18_flush_wf) *)
+Theorem C01_flush_then_query : forall tok re locs keys buffers q pb r,
+  (forall pb', In pb' buffers -> rows_ok keys (fst pb') (snd pb')) -> pre_in64 q ->
+  In pb buffers -> In r (snd pb) ->
+  row_matches tok re q r = true -> row_pre q r = true ->
+  In r (run_query tok re q [flush_file tok locs keys buffers]).
+Proof. exact flush_then_query. Qed.
+Print Assumptions C01_flush_then_query.
 
 (* pruning is monotone and never uses a property of the hash: filters that answer true on a
    row's entries cannot reject an expression the row satisfies *)
